@@ -114,6 +114,24 @@ def check_graph_case(case):
     elif r is not True:
         bad('get_reachable_set_from:raises',
             'X not within V but raise=%r result=%r' % (r, R))
+    # the argument is the caller's: a set passed in is neither returned nor changed (also when it is one of
+    # G's own successor sets, handed out by next())
+    if X <= V0:
+        arg = set(X)
+        Ra = G.get_reachable_set_from(arg)
+        if Ra is arg:
+            bad('get_reachable_set_from:fresh', 'the result IS the set object passed as argument')
+        if arg != X:
+            bad('get_reachable_set_from:frame:argument', 'the set passed as argument was changed to %r' % (sorted(arg, key=repr),))
+        for v in sorted(V0, key=repr)[:3]:
+            before = (view(G), set(G.next(v)))
+            Rn = G.get_reachable_set_from(G.next(v))
+            if Rn is G._next[v] or view(G) != before[0]:
+                bad('get_reachable_set_from:frame:graph', 'get_reachable_set_from(G.next(%r)) changed G or returned its successor set: now %r'
+                    % (v, view(G)))
+                break
+            if Rn != _closure(V0, E0, before[1]):
+                bad('get_reachable_set_from:ensures:result', 'reachable set from next(%r) = %r' % (v, Rn))
     # list argument with duplicates gives the same answer
     if X <= V0 and X:
         lst = sorted(X, key=repr) * 2
@@ -136,7 +154,10 @@ def check_graph_case(case):
         bad('get_reversed_graph:lemma:rev_rev', 'reversing twice = %r' % (view(HH),))
 
     # subgraph
-    S = G.get_subgraph(set(X))
+    argS = set(X)
+    S = G.get_subgraph(argS)
+    if argS != X:
+        bad('get_subgraph:frame:argument', 'the set passed as argument was changed')
     SV, SE = view(S)
     if SV != (X & V0):
         bad('get_subgraph:ensures:nodes', 'subgraph nodes = %r' % (SV,))
